@@ -12,6 +12,23 @@ from .core import AnalysisError, Report, finish
 from .index import RepoIndex
 
 
+def analyse(pid: str, repo: str, tier: str = 'quick'):
+    """run the rules of one property on a tree; returns (code, report, message).  Writes
+    nothing: used by the self-test on scratch variants."""
+    mod = importlib.import_module(f'gvstatic.rules.{pid.lower()}')
+    report = Report(pid, tier, repo)
+    try:
+        index = RepoIndex(repo, report)
+        mod.run(index, report)
+        if not report.findings:
+            report.enforce_floors()
+        return (1 if report.findings else 0), report, ''
+    except AnalysisError as e:
+        return 2, report, str(e)
+    except Exception as e:
+        return 2, report, f'checker crashed: {type(e).__name__}: {e}'
+
+
 def run_property(pid: str, tier: str, repo: str) -> int:
     try:
         mod = importlib.import_module(f'gvstatic.rules.{pid.lower()}')
@@ -24,10 +41,10 @@ def run_property(pid: str, tier: str, repo: str) -> int:
         mod.run(index, report)
         if tier == 'thorough' and hasattr(mod, 'run_thorough'):
             mod.run_thorough(index, report)
-        code = finish(report, mod.EXPLANATION, getattr(mod, 'TRUSTED', []))
         if tier == 'thorough':
             from . import selftest
-            selftest.run(pid, repo)
+            selftest.run(pid, repo, report)
+        code = finish(report, mod.EXPLANATION, getattr(mod, 'TRUSTED', []))
         return code
     except AnalysisError as e:
         print(f'ANALYSIS-ERROR property={pid} {e}')
